@@ -275,10 +275,13 @@ fn receive_acks(
 fn buffer_despawns(
     trigger: Trigger<OnRemove, Replicated>,
     mut despawn_buffer: ResMut<DespawnBuffer>,
+    mut removal_buffer: ResMut<RemovalBuffer>,
     server: Res<RepliconServer>,
 ) {
     if server.is_running() {
         despawn_buffer.push(trigger.target());
+        // Removals buffered for this entity in previous frames are superseded by the despawn.
+        removal_buffer.remove_entity(trigger.target());
     }
 }
 
